@@ -217,6 +217,14 @@ class Run:
                 state["lastkey"] = key
             return r
         Q.event_and_return_nextnode = wrapper
+
+        def after_timestamp(r):
+            # timestamp() runs right after the event returns: the history seen "after the event" includes it
+            if self.events:
+                h = Q.statetracker.history
+                self.events[-1]["trk"]["hl"] = len(h)
+                self.events[-1]["trk"]["ht"] = self.tk(h[-1][0], "hist")
+        rec.wrap(Q.statetracker, "timestamp", post=after_timestamp)
         try:
             if sc["stop"] == "time":
                 Q.simulate_until_max_time(sc["T"])
